@@ -8,8 +8,9 @@ package main
 // Driver/Ops/C14.lean).  The Lean model prints it (`legacy.print`) and gives its documented
 // meaning (`legacy.expected`, canonical profile); the REAL profile.ParseData parses the printed
 // bytes; the canonical result must equal the documented one (direct oracle; float-unsampled
-// values within a tolerance, everything else exactly).  Correspondence: the Lean parser
-// (`legacy.parse`, the whole parseLegacy dispatch) must give the same profile as the Go code.
+// values within a tolerance, everything else exactly).  Correspondence: the Lean model of the
+// whole of ParseData (`legacy.parsedata`: the protobuf decoder model first, then the parseLegacy
+// dispatch) must give the same profile as the Go code.
 
 import (
 	"encoding/hex"
@@ -85,7 +86,7 @@ func c14One(c *Ctx, cs c14Case) {
 		c.Res.HarnessError = "bad hex from driver"
 		return
 	}
-	if cs.Format != "cpu" {
+	if cs.Format != "cpu" && cs.Format != "javacpu" {
 		cs.Text = trunc(string(data))
 	}
 	exp := c.Drv.Ask("legacy.expected " + line)
@@ -103,7 +104,22 @@ func c14One(c *Ctx, cs c14Case) {
 		return
 	}
 	if perr != nil {
-		c.Violation("C14/"+cs.Format+"/rejected", "ParseData rejects a well-formed "+cs.Format+" document: "+perr.Error(), cs)
+		// two known ways in which a well-formed document never reaches its parser get their own
+		// signatures; the Lean model of ParseData must fail on such a document too
+		sig, what := "C14/"+cs.Format+"/rejected", "ParseData rejects a well-formed "+cs.Format+" document: "+perr.Error()
+		switch {
+		case strings.Contains(perr.Error(), "concatenated profiles detected"):
+			sig = "C14/" + cs.Format + "/taken-for-concatenated-protobuf"
+			what = "a well-formed " + cs.Format + " document in which the protobuf decoder (tried first) sees the time_nanos tag twice is refused as concatenated profiles: " + perr.Error()
+		case c.Drv.Ask("legacy.chainok "+line) == "0":
+			sig = "C14/" + cs.Format + "/taken-for-heap"
+			what = "a threadz document whose first line, a thread header with a thread name that reads as a heap profile header, is claimed by parseHeap: " + perr.Error()
+		}
+		c.Violation(sig, what, cs)
+		c.Res.ModelCompared++
+		if mp := c.Drv.Ask("legacy.parsedata " + hexTok(data)); !strings.HasPrefix(mp, "err ") {
+			c.Disagree("C14/model-parse/"+cs.Format+"/accepts", "Go ParseData rejects the printed document, the Lean model of ParseData does not: "+trunc(mp), "correspondence Legacy.parseDataReal ~ ParseData", cs)
+		}
 		return
 	}
 	got := Canon(p)
@@ -140,17 +156,17 @@ func c14One(c *Ctx, cs c14Case) {
 			c.Violation("C14/"+cs.Format+"/"+where, "ParseData result differs from the documented conversion in "+where, cs)
 		}
 	}
-	// correspondence with the Lean parser (whole parseLegacy dispatch)
+	// correspondence with the Lean model of the whole of ParseData: the protobuf decoder model
+	// (Codec.parseUncompressed) first, then the parseLegacy dispatch. It is compared even when the
+	// oracle failed: on a document taken for protobuf the model must say so too.
 	c.Res.ModelCompared++
-	mp := c.Drv.Ask("legacy.parse " + hexTok(data))
+	mp := c.Drv.Ask("legacy.parsedata " + hexTok(data))
 	if !strings.HasPrefix(mp, "ok ") {
-		if okOracle {
-			c.Disagree("C14/model-parse/"+cs.Format+"/"+firstWord(mp), "Lean parser does not accept the printed document: "+trunc(mp), "theorems parseX_printX ("+cs.Format+") / correspondence Legacy.parseLegacy ~ parseLegacy", cs)
-		}
+		c.Disagree("C14/model-parse/"+cs.Format+"/"+firstWord(mp), "Lean model of ParseData does not accept the printed document: "+trunc(mp), "theorems parseData_printX ("+cs.Format+") / correspondence Legacy.parseDataReal ~ ParseData", cs)
 		return
 	}
-	if same, w := c14Same(mp[3:], got, cs.Approx); !same && okOracle {
-		c.Disagree("C14/model-parse/"+cs.Format+"/"+w, "Lean parser and Go parser differ on the printed document ("+w+")", "correspondence Legacy.parseLegacy ~ parseLegacy", cs)
+	if same, w := c14Same(mp[3:], got, cs.Approx); !same {
+		c.Disagree("C14/model-parse/"+cs.Format+"/"+w, "Lean model of ParseData and Go ParseData differ on the printed document ("+w+")", "correspondence Legacy.parseDataReal ~ ParseData", cs)
 	}
 }
 
@@ -339,16 +355,75 @@ func (g *c14Gen) mapEntry(start, limit uint64) {
 	}
 }
 
+// attribute names: word characters, first byte not a hex digit; any two names used in one section
+// must not be prefixes of each other (strings.Replacer picks the first matching key).
+var c14AttrNames = []string{"source", "root", "lib", "prefix", "home_dir", "r2", "G", "s", "sourcedir", "_x"}
+var c14AttrValues = []string{"/home", "/usr/lib", "/opt/a=b", "[x]", "/very/long/path/to/some/dir", "/h[1]", "/", "/x.so.1"}
+var c14RefSuffixes = []string{"", "/cppbench_server_main", "/lib/libc-2.15.so", ".so", "(deleted)", "/[v]", "/bin/prog", "-1.so"}
+var c14LogTexts = []string{"W1220 15:07:15.201776    8272 logger.cc", "I0101 00:00:00.000000 1 a.go", "x", "E0302 01:02:03.4 77 dir/file with blanks.cc", "a:1", "7"}
+
+func (g *c14Gen) optLog() {
+	if g.r.Chance(25) {
+		g.tag("map:glog-prefix")
+		g.w.n(1)
+		g.w.str(c14LogTexts[g.r.Intn(len(c14LogTexts))])
+		g.w.n([]int{0, 1, 12033, 99999999}[g.r.Intn(4)])
+	} else {
+		g.w.n(0)
+	}
+}
+
+func c14PrefixFree(name string, defined []string) bool {
+	for _, d := range defined {
+		if strings.HasPrefix(name, d) || strings.HasPrefix(d, name) {
+			return false
+		}
+	}
+	return true
+}
+
 func (g *c14Gen) mapSection() {
 	r := g.r
 	n := r.Intn(6)
-	g.w.n(n)
-	var prevLimit uint64
+	var defined []string
+	type slot struct {
+		kind int // 0 entry, 1 entry with $ref, 2 attribute line
+		name string
+	}
+	var slots []slot
+	useAttrs := r.Chance(40)
 	for i := 0; i < n; i++ {
+		if useAttrs && r.Chance(40) {
+			name := c14AttrNames[r.Intn(len(c14AttrNames))]
+			if c14PrefixFree(name, defined) {
+				defined = append(defined, name)
+				slots = append(slots, slot{2, name})
+			}
+		}
+		if len(defined) > 0 && r.Chance(60) {
+			slots = append(slots, slot{1, defined[r.Intn(len(defined))]})
+		} else {
+			slots = append(slots, slot{0, ""})
+		}
+	}
+	g.w.n(len(slots))
+	var prevLimit uint64
+	first := true
+	for _, sl := range slots {
 		g.fillers(15)
+		if sl.kind == 2 {
+			g.tag("map:attr-line")
+			g.w.n(2)
+			g.optLog()
+			g.w.n(r.Intn(4))
+			g.w.str(sl.name)
+			g.w.bool(r.Chance(30))
+			g.w.str(c14AttrValues[r.Intn(len(c14AttrValues))])
+			continue
+		}
 		var start, limit uint64
 		switch {
-		case i > 0 && r.Chance(35): // adjacent to the previous entry
+		case !first && r.Chance(35): // adjacent to the previous entry
 			start = prevLimit
 			limit = start + uint64(1+r.Intn(4))*0x1000
 		case r.Chance(70): // around a pool address
@@ -362,8 +437,16 @@ func (g *c14Gen) mapSection() {
 			start = uint64(r.Intn(1 << 20))
 			limit = start + uint64(r.Intn(1<<16))
 		}
+		first = false
 		prevLimit = limit
+		g.w.n(sl.kind)
+		g.optLog()
 		g.mapEntry(start, limit)
+		if sl.kind == 1 {
+			g.tag("map:$attr-reference")
+			g.w.str(sl.name)
+			g.w.str(c14RefSuffixes[r.Intn(len(c14RefSuffixes))])
+		}
 	}
 	g.fillers(15)
 }
@@ -916,7 +999,13 @@ func genJava(g *c14Gen) {
 		g.addrs(g.stack(1))
 	}
 	g.w.n(r.Intn(3))
-	// trailer: most pool addresses get a line, some twice, some unknown addresses too
+	g.javaLocs()
+}
+
+// javaLocs writes the trailer of a Java profile: most pool addresses get a line, some twice,
+// some unknown addresses too.
+func (g *c14Gen) javaLocs() {
+	r := g.r
 	var locs []uint64
 	for _, a := range g.pool {
 		if r.Chance(80) {
@@ -962,18 +1051,75 @@ func genJava(g *c14Gen) {
 	}
 }
 
+// binary Java CPU profile: the word layout of genCpu with third header word 1, then the Java
+// location trailer; addresses are not adjusted and no frame is removed.
+func genJavaCpu(g *c14Gen) {
+	r := g.r
+	big, w64 := r.Bool(), g.w64
+	g.tag(fmt.Sprintf("javacpu:big=%v,w64=%v", big, w64))
+	g.w.bool(big)
+	g.w.bool(w64)
+	bound := uint64(1 << 32)
+	if w64 {
+		bound = 0
+	}
+	g.w.nat([]uint64{1, 100, 1000, 10000, 9999, 1 << 31}[r.Intn(6)])
+	n := g.nrecs()
+	if r.Chance(20) {
+		n = []int{31, 32, 33, 64}[r.Intn(4)]
+	}
+	g.nrec = n
+	g.w.n(n)
+	for i := 0; i < n; i++ {
+		cnt := uint64(r.Intn(1000))
+		if r.Chance(5) {
+			cnt = r.U64()
+		}
+		if bound != 0 {
+			cnt %= bound
+		}
+		var st []uint64
+		if r.Chance(90) {
+			st = g.stack(1)
+			if len(st) > 1 && r.Chance(20) {
+				st[1] = st[0] + 1 // would be a duplicated leaf in a C++ profile: must be kept here
+				if bound != 0 {
+					st[1] %= bound
+				}
+				g.tag("javacpu:dup-leaf-kept")
+			}
+		}
+		if cnt == 0 && len(st) == 1 && st[0] == 0 {
+			cnt = 1 // would be the end marker
+		}
+		g.w.nat(cnt)
+		g.addrs(st)
+	}
+	eod := r.Chance(80)
+	g.w.bool(eod)
+	if eod {
+		g.w.n(r.Intn(3))
+		g.javaLocs()
+		g.tag("javacpu:trailer")
+	} else {
+		g.w.n(0)
+		g.w.n(0)
+		g.tag(fmt.Sprintf("javacpu:no-end-marker,w64=%v", w64))
+	}
+}
+
 var c14Formats = []struct {
 	name string
 	gen  func(*c14Gen)
 }{
 	{"count", genCount}, {"heap", genHeap}, {"contention", genContention},
-	{"thread", genThread}, {"cpu", genCpu}, {"java", genJava},
+	{"thread", genThread}, {"cpu", genCpu}, {"java", genJava}, {"javacpu", genJavaCpu},
 }
 
 func c14Generate(c *Ctx, r *Rng, fi int) (c14Case, *c14Gen) {
 	f := c14Formats[fi]
 	g := &c14Gen{r: r, c: c, w: &tw{}}
-	if f.name == "cpu" {
+	if f.name == "cpu" || f.name == "javacpu" {
 		g.w64 = r.Bool()
 		if !g.w64 {
 			g.max = 1 << 32 // 32-bit words: 32-bit addresses
@@ -982,6 +1128,67 @@ func c14Generate(c *Ctx, r *Rng, fi int) (c14Case, *c14Gen) {
 	g.mkPool()
 	f.gen(g)
 	return c14Case{Format: f.name, Doc: g.w.String(), Approx: g.approx}, g
+}
+
+// ---------------------------------------------------------------------------------------------
+// ParseProcMaps on realistic memory maps (pprof's own test inputs and variants): the exported
+// entry point of the memory-map code, compared with the Lean parseProcMaps directly.
+
+var c14ProcMaps = []string{
+	"00400000-02e00000 r-xp 00000000 00:00 0",
+	"02e00000-02e8a000 r-xp 02a00000 00:00 15953927    /foo/bin",
+	"02e00000-02e8a000 r-xp 000000 00:00 15953927    [vdso]",
+	"  02e00000-02e8a000: /foo/bin (@2a00000)",
+	"  02e00000-02e8a000: /foo/bin (deleted)",
+	"  02e00000-02e8a000: [vdso]",
+	"0xff6810563000 0xff6810565000 r-xp abc_exe 87c4d547f895cfd6a370e08dc5c5ee7bd4199d5b",
+	"7f5e5435e000-7f5e5455e000 --xp 00002000 00:00 1531        myprogram",
+	"7f5e5435e000-7f5e5455e000 ---p 00002000 00:00 1531        myprogram",
+	"0x40000-0x80000 /path/to/binary      (@FF00)            abc123456",
+	"W1220 15:07:15.201776    8272 logger.cc:12033] --- Memory map: ---\n0x40000-0x80000 /path/to/binary      (@FF00)            abc123456",
+	"W1220 15:07:15.201776    8272 logger.cc:12033] --- Memory map: ---\nW1220 15:07:15.202776    8272 logger.cc:12036]   0x40000-0x80000 /path/to/binary      (@FF00)            abc123456",
+	"\tsource=/home\n  00400000-00fcb000: $source/cppbench_server_main\n  7f47a4351000-7f47a4352000: /lib/libnss_borg-2.15.so\n  7fff63dfe000-7fff63e00000: [vdso]\n",
+	"build = /usr/local\nlib=$build/lib\n# comment\n\n40000000-40015000 r-xp 00000000 03:01 12845071   $build/bin/prog\n40015000-40016000 rw-p 00014000 03:01 12845071   $build/bin/prog\n40016000-40020000 r-xp 00000000 03:01 1   $lib/libc.so.6\n",
+	"I0101 00:00:00.000001 1 x.go:7] root=/r\nI0101 00:00:00.000002 1 x.go:8] 1000-2000 $root/a.so\nx.go:9] 2000-3000 $root/b.so (@1000) 0abc\n3000-4000 $nosuch/c\n",
+	"a]b: 1000-2000 /x\n[x]:1] 1000-2000 /y\nz:1]1000-2000 /w\nz:] 1000-2000 /v\n:1] 1000-2000 /u\n",
+}
+
+func c14ProcMapsCheck(c *Ctx) {
+	for i, text := range c14ProcMaps {
+		c14ProcMapsOne(c, i, text)
+	}
+}
+
+func c14ProcMapsOne(c *Ctx, i int, text string) {
+	{
+		var ms []*profile.Mapping
+		var err error
+		if pn := safely(func() { ms, err = profile.ParseProcMaps(strings.NewReader(text)) }); pn != "" || err != nil {
+			c.Violation("C14/procmaps/rejected", fmt.Sprintf("ParseProcMaps fails on memory map #%d: %s %v", i, pn, err), c14Case{Format: "procmaps", Text: text})
+			return
+		}
+		w := &tw{}
+		w.n(len(ms))
+		for _, m := range ms {
+			w.nat(m.ID)
+			w.nat(m.Start)
+			w.nat(m.Limit)
+			w.nat(m.Offset)
+			w.str(m.File)
+			w.str(m.BuildID)
+			w.bool(m.HasFunctions)
+			w.bool(m.HasFilenames)
+			w.bool(m.HasLineNumbers)
+			w.bool(m.HasInlineFrames)
+		}
+		c.Res.ModelCompared++
+		c.Res.Hit("procmaps:direct")
+		got := strings.TrimSpace(w.String())
+		mp := strings.TrimSpace(c.Drv.Ask("legacy.procmaps " + hexTok([]byte(text))))
+		if mp != got {
+			c.Disagree("C14/model-procmaps", fmt.Sprintf("Lean parseProcMaps and Go ParseProcMaps differ on memory map #%d: model %s, code %s", i, trunc(mp), trunc(got)), "correspondence Legacy.parseProcMaps ~ ParseProcMaps (mapSection_print_parse)", c14Case{Format: "procmaps", Text: text})
+		}
+	}
 }
 
 func bucket(n int) string {
@@ -1000,17 +1207,22 @@ func bucket(n int) string {
 }
 
 func runC14(c *Ctx) {
-	c.Res.Rule = "random document models of the 6 legacy formats (count, heap incl. heap_v2/heapprofile/heap/growth/fragmentation, contention/mutex, threadz, binary CPU in 4 word layouts, Java heapz/contentionz): 0–80 records, addresses from a pool with boundary values (0,1,2^32,2^63,2^64-1) and repeats, header variants, comment/blank lines, memory map in /proc/maps and brief form (adjacent, offset, non-executable, main-binary heuristics); boundary-exact strategies for the parsers' thresholds: CPU sample counts 31/32/33/63/…/129 with exactly k ∈ {0,1,⌊n/32⌋,⌊n/32⌋+1,…} samples lacking the (fresh-address) signal-handler frame, for the first and for the second removal iteration, profiles without end marker (nstk bound), heap rates 0..5 (period 0/1/2 after halving), contention sampling period {absent,0,1,>1} × cycles/second {absent,0,>0}; printed by the Lean model, parsed by the real ParseData, compared with the documented conversion; non-trivial = at least one record with at least one address; distinct by document tokens"
+	c.Res.Rule = "random document models of the 7 legacy formats (count, heap incl. heap_v2/heapprofile/heap/growth/fragmentation, contention/mutex, threadz, binary CPU in 4 word layouts, binary Java CPU in 4 word layouts with location trailer, Java heapz/contentionz): 0–80 records, addresses from a pool with boundary values (0,1,2^32,2^63,2^64-1) and repeats, header variants, comment/blank lines, memory map in /proc/maps and brief form (adjacent, offset, non-executable, main-binary heuristics; glog prefixes on lines, name=value attribute lines and $name references in file fields); boundary-exact strategies for the parsers' thresholds: CPU sample counts 31/32/33/63/…/129 with exactly k ∈ {0,1,⌊n/32⌋,⌊n/32⌋+1,…} samples lacking the (fresh-address) signal-handler frame, for the first and for the second removal iteration, profiles without end marker (nstk bound), heap rates 0..5 (period 0/1/2 after halving), contention sampling period {absent,0,1,>1} × cycles/second {absent,0,>0}; printed by the Lean model, parsed by the real ParseData, compared with the documented conversion and with the Lean model of ParseData (decoder model + parser chain); non-trivial = at least one record with at least one address; distinct by document tokens"
 	if c.Replay != "" {
 		var cs c14Case
 		if err := c.LoadReplay(&cs); err != nil {
 			c.Res.HarnessError = err.Error()
 			return
 		}
-		c14One(c, cs)
+		if cs.Format == "procmaps" {
+			c14ProcMapsOne(c, 0, cs.Text)
+		} else {
+			c14One(c, cs)
+		}
 		c.Res.Evaluations++
 		return
 	}
+	c14ProcMapsCheck(c)
 	r := NewRng(c.Seed)
 	n := 900 * c.Scale
 	for i := 0; i < n; i++ {
